@@ -32,8 +32,10 @@ ASSUMPTIONS = [
     'with an FCS negotiated, SDUs are kept small enough for payload + FCS to fit the 16-bit L2CAP length field',
 ]
 MIN_EVENTS = {
-    'quick': {'sdu_checks': 900, 'wire_iframes': 20000, 'setup_checks': 800, 'fcs_checked': 15000, 'seq_wraps': 100},
-    'thorough': {'sdu_checks': 4000, 'wire_iframes': 100000, 'setup_checks': 3000, 'fcs_checked': 10000, 'seq_wraps': 100},
+    'quick': {'sdu_checks': 900, 'wire_iframes': 20000, 'setup_checks': 800, 'fcs_checked': 15000, 'seq_wraps': 100,
+              'multi_sdu_checks': 1500, 'multi_channels_with_different_cids': 100, 'multi_closes': 80},
+    'thorough': {'sdu_checks': 4000, 'wire_iframes': 100000, 'setup_checks': 3000, 'fcs_checked': 10000, 'seq_wraps': 100,
+                 'multi_sdu_checks': 15000, 'multi_channels_with_different_cids': 1000, 'multi_closes': 800},
 }
 CASE_TIMEOUT = 300
 
@@ -42,7 +44,9 @@ PSM = 0x1001
 
 def plan(tier, seed):
     n = 900 if tier == 'quick' else 6000
-    return [{'kind': 'xfer', 'seed': seed * 1000003 + i, 'tier': tier} for i in range(n)]
+    m = 150 if tier == 'quick' else 1500
+    return ([{'kind': 'xfer', 'seed': seed * 1000003 + i, 'tier': tier} for i in range(n)] +
+            [{'kind': 'multi', 'seed': seed * 1000003 + 50000 + i, 'tier': tier} for i in range(m)])
 
 
 def crc16(data: bytes) -> int:
@@ -370,8 +374,142 @@ async def xfer(case, r: R):
                 'max_outstanding': max(s0['max_outstanding'], s1['max_outstanding'])}
 
 
+async def multi(case, r: R):
+    """Several channels on one link, opened from BOTH ends at the same time (so that the two CIDs of a
+    channel differ), one of them closed by either end, a new one opened: before and after every step
+    every open channel carries its own SDUs, exactly once and in order, in both directions."""
+    from bumble import l2cap
+    from vlib import rig as vrig
+    rng = random.Random(case['seed'])
+    vrig.seed_entropy(case['seed'])
+    spec = gen_spec(rng)
+    spec['mtu'] = rng.choice([48, 256, 1024])
+    rg = vrig.Rig(2, seed=case['seed'], max_delay=rng.choice([0, 1, 3]), classic=True,
+                  acl_len=[rng.choice([64, 339, 1021]) for _ in range(2)], acl_num=[rng.choice([2, 8]) for _ in range(2)])
+    for d in rg.devices:
+        d.l2cap_channel_manager.extended_features.update({
+            l2cap.L2CAP_Information_Request.ExtendedFeatures.ENHANCED_RETRANSMISSION_MODE,
+            l2cap.L2CAP_Information_Request.ExtendedFeatures.FCS_OPTION})
+    await rg.power_on()
+    ca, cb = await rg.connect_classic(0, 1)
+    conns = [ca, cb]
+    accepted = [[], []]
+    psms = [PSM + 2, PSM + 4]
+    for i in (0, 1):
+        rg.devices[i].create_l2cap_server(spec=mkspec(spec, psms[i]), handler=accepted[i].append)
+    await rg.quiesce()
+    mode = spec['mode']
+    chans = []      # dict(ends=[end on dev0, end on dev1], got=[[], []], sent=[[], []])
+    hist = []
+    counter = [0]
+
+    async def open_from(side):
+        n0 = len(accepted[1 - side])
+        ch = await vloop.vwait(conns[side].create_l2cap_channel(spec=mkspec(spec, psms[1 - side])))
+        return side, ch, n0
+
+    def register(side, ch, peer_end):
+        ends = [ch, peer_end] if side == 0 else [peer_end, ch]
+        c = dict(ends=ends, got=[[], []], sent=[[], []], id=len(chans))
+        ends[0].sink = c['got'][0].append
+        ends[1].sink = c['got'][1].append
+        chans.append(c)
+
+    async def open_many(sides):
+        before = [len(accepted[0]), len(accepted[1])]
+        try:
+            res = await asyncio.gather(*[open_from(sd) for sd in sides])
+        except vloop.Hang:
+            r.bad(f'multi/open-hang/{mode}', f'opening channels from sides {sides} pending at T_v; history={hist}')
+            return False
+        except Exception as e:
+            r.bad(f'multi/open-failed/{mode}', f'{type(e).__name__}: {e}; sides {sides}; history={hist}')
+            return False
+        await rg.quiesce()
+        for side, ch, _ in res:
+            new = [x for x in accepted[1 - side][before[1 - side]:] if x.source_cid == ch.destination_cid]
+            if len(new) != 1:
+                r.bad(f'multi/open-mismatch/{mode}', f'no unique acceptor end for {ch}; history={hist}')
+                return False
+            register(side, ch, new[0])
+            if ch.source_cid != ch.destination_cid:
+                r.ev('multi_channels_with_different_cids')
+        hist.append(('open', tuple(sides)))
+        return True
+
+    async def traffic(after):
+        live = [c for c in chans if not c.get('closed')]
+        for c in live:
+            for dirn in (0, 1):
+                for _ in range(rng.randint(1, 3)):
+                    counter[0] += 1
+                    size = rng.choice([1, 2, spec['mps'], spec['mps'] + 1, spec['mtu']])
+                    size = min(size, spec['mtu'])
+                    sdu = bytes([c['id'], dirn]) + bytes([(counter[0] + i) & 0xFF for i in range(size - 2)]) if size >= 2 else bytes([counter[0] & 0xFF])
+                    c['ends'][dirn].write(sdu)
+                    c['sent'][dirn].append(sdu)
+
+        async def done():
+            while any(len(c['got'][1 - dirn]) < len(c['sent'][dirn]) for c in live for dirn in (0, 1)):
+                await asyncio.sleep(0.05)
+        try:
+            await vloop.vwait(done())
+        except vloop.Hang:
+            pass
+        await rg.quiesce()
+        ok = True
+        for c in live:
+            for dirn in (0, 1):
+                r.ev('multi_sdu_checks')
+                r.ev('oracle_evals')
+                got = [bytes(x) for x in c['got'][1 - dirn]]
+                if got != c['sent'][dirn]:
+                    e0, e1 = c['ends']
+                    kind_ = 'lost' if len(got) < len(c['sent'][dirn]) else 'corrupt-or-extra'
+                    r.bad(f'multi/sdu/{kind_}/{mode}/after-{after}',
+                          f'channel {e0.source_cid:#x}<->{e1.source_cid:#x} dev{dirn}->dev{1 - dirn}: '
+                          f'{len(got)} SDUs delivered, {len(c["sent"][dirn])} written; history={hist} spec={spec}')
+                    ok = False
+        return ok
+
+    if not await open_many([0, 1] + ([rng.randrange(2)] if rng.random() < 0.5 else [])):
+        return
+    if await traffic('open'):
+        for step in range(rng.randint(1, 3)):
+            live = [c for c in chans if not c.get('closed')]
+            if len(live) > 1 and rng.random() < 0.7:
+                c = rng.choice(live)
+                side = rng.randrange(2)
+                try:
+                    await vloop.vwait(c['ends'][side].disconnect())
+                except vloop.Hang:
+                    r.bad(f'multi/close-hang/{mode}', f'disconnect() pending at T_v; history={hist}')
+                    break
+                c['closed'] = True
+                await rg.quiesce()
+                hist.append(('close', c['id'], side, c['ends'][0].source_cid, c['ends'][1].source_cid))
+                r.ev('multi_closes')
+                if not await traffic('close'):
+                    break
+            else:
+                if not await open_many([rng.randrange(2)]):
+                    break
+                if not await traffic('reopen'):
+                    break
+    for where, e in rg.exceptions:
+        r.bad(f'sdu/exception-in-stack/{mode}', f'{where}: {e}; multi history={hist}')
+    r.ev('multi_cases')
+    r.sig('multi', tuple(sorted(spec.items())), tuple(hist))
+    r.sched.add(rg.schedule_signature)
+    r.evals()
+    r.sample = {'kind': 'multi', 'spec': spec, 'history': hist}
+
+
 async def run_case(case, r: R):
-    await xfer(case, r)
+    if case['kind'] == 'multi':
+        await multi(case, r)
+    else:
+        await xfer(case, r)
 
 
 LEVEL_TEXT = ('SDU-sequence equality plus an independent ERTM wire parser (TxSeq continuity, window bound from the '
